@@ -15,7 +15,12 @@
 #include <arpa/inet.h>
 
 // error pdu: header(8) + len(4) + ipv6_pdu(32) + len(4) + 400*8 (400 char text)
+#if defined(RTRLIB_VERIF) && defined(RTRLIB_VERIF_MAX_PDU_LEN)
+/* verification hook: scaled receive buffer (must stay >= the largest fixed-size PDU, 123 bytes) */
+static const unsigned int RTR_MAX_PDU_LEN = RTRLIB_VERIF_MAX_PDU_LEN;
+#else
 static const unsigned int RTR_MAX_PDU_LEN = 3248;
+#endif
 static const unsigned int RTR_RECV_TIMEOUT = 60;
 static const unsigned int RTR_SEND_TIMEOUT = 60;
 
